@@ -6,6 +6,6 @@ KJ == [stack |-> k.stack, major |-> k.major, minor |-> k.minor, flags |-> SetToS
        ext |-> k.ext, want |-> SetToSeq(k.want), sw |-> k.sw]
 PJ == [r |-> [status |-> res.r.status, size |-> res.r.size, flags |-> SetToSeq(res.r.flags), flags2 |-> SetToSeq(res.r.flags2),
               major |-> res.r.major, max_write |-> res.r.max_write, max_pages |-> res.r.max_pages],
-       t |-> res.t, called |-> res.called, second |-> second]
-ExportCases == stage = "done" => PrintT(ToJson([k |-> KJ, pred |-> PJ]))
+       t |-> res.t, called |-> res.called]
+ExportCases == stage = "inited" => PrintT(ToJson([k |-> KJ, pred |-> PJ]))
 =============================================================================
